@@ -1,6 +1,7 @@
 import GeomV.C07.Spec
 import GeomV.C07.JsonText
 import GeomV.C07.ModelIO
+import GeomV.C07.JsonCost
 /-!
 Driver for C07.  `geomv_c07 judge` reads `<input> => <what the implementation did>` lines and prints
 one verdict per line:
@@ -212,22 +213,24 @@ structure Case where
   size : Nat
   pred : Pred
   nonFiniteInput : Bool := false
+  /-- JSON text: the node-granular allocation model `jsonAllocModel` (an upper bound) -/
+  upper : Option Nat := none
 
 def parseCase (lhs : Tok) : Option Case :=
   match lhs with
-  | ["wkb", h] => (hexToBytes (h.drop 1).toString).map fun bs => ⟨"wkb", .wkb, bs.length, predWkb bs, false⟩
-  | ["wkbr", _, h] => (hexToBytes (h.drop 1).toString).map fun bs => ⟨"wkbr", .wkb, bs.length, predWkb bs, false⟩
+  | ["wkb", h] => (hexToBytes (h.drop 1).toString).map fun bs => ⟨"wkb", .wkb, bs.length, predWkb bs, false, none⟩
+  | ["wkbr", _, h] => (hexToBytes (h.drop 1).toString).map fun bs => ⟨"wkbr", .wkb, bs.length, predWkb bs, false, none⟩
   | ["wkbs", m, _, h] => (hexToBytes (h.drop 1).toString).map fun bs =>
-      ⟨"wkbs", .wkb, bs.length, predStream bs (if m.startsWith "C" || m.startsWith "X" then .custom else .eof), false⟩
+      ⟨"wkbs", .wkb, bs.length, predStream bs (if m.startsWith "C" || m.startsWith "X" then .custom else .eof), false, none⟩
   | ["hex", h] => (hexToBytes (h.drop 1).toString).map fun bs =>
-      ⟨"hex", .hex, bs.length, predHex (bs.map fun b => Char.ofNat b.toNat), false⟩
-  | ["json", h] => (hexToBytes (h.drop 1).toString).map fun bs => ⟨"json", .json, bs.length, predJ (decodeJSON bs), false⟩
-  | ["gj", "NILPTR"] => some ⟨"gj", .value, 1, predJ (fromGeoJSON none), false⟩
+      ⟨"hex", .hex, bs.length, predHex (bs.map fun b => Char.ofNat b.toNat), false, none⟩
+  | ["json", h] => (hexToBytes (h.drop 1).toString).map fun bs => ⟨"json", .json, bs.length, predJ (decodeJSON bs), false, some (jsonAllocModel bs)⟩
+  | ["gj", "NILPTR"] => some ⟨"gj", .value, 1, predJ (fromGeoJSON none), false, none⟩
   | "gj" :: t :: v =>
     match hexStrTok (t.drop 1).toString, pGoVal 100000 v with
     | some typ, some (raw, _) =>
       let c := unfold 12 [] raw
-      some ⟨"gj", .value, c.size, predJ (fromGeoJSON (some (typ, c))), hasNonFinite c⟩
+      some ⟨"gj", .value, c.size, predJ (fromGeoJSON (some (typ, c))), hasNonFinite c, none⟩
     | _, _ => none
   | _ => none
 
@@ -239,6 +242,15 @@ def costEnvelope (f : Family) (size cost measured : Nat) : Bool :=
   | .json => cost ≤ measured
   | .value => cost ≤ measured ∧ measured ≤ 2 * cost + 16 * size + 4096
   | _ => cost ≤ measured ∧ measured ≤ 8 * cost + 16 * size + 8192
+
+/-- JSON text: the measured allocation never exceeds the node-granular model (`JsonCost.lean`), and the
+model is not vacuous: it stays within `6·measured + 16·len + 4096`.  Stated slack of the upper side:
+16 KiB, because `TotalAlloc` is process-wide — the worker's heap watchdog (`metrics.Read` every 5 ms) and
+the collector's workers are charged to whatever call is running (9 KiB observed once on a 38-byte text,
+296 bytes on every repetition). -/
+def jsonSlack : Nat := 16384
+def jsonEnvelope (size upper measured : Nat) : Bool :=
+  measured ≤ upper + jsonSlack ∧ upper ≤ 6 * measured + 16 * size + 4096
 
 /-! batch lines: `batch <fam> x.. x.. => batch || m i <status> [| geom | tag k.. c.. late]...` -/
 
@@ -357,12 +369,14 @@ def judgeLine (line : String) : String :=
           s!"DIFF {cls} decoded-geometry-differs-from-model"
         else if !costEnvelope c.family c.size p.cost o.alloc then
           s!"DIFF {cls} cost-envelope model-cost={p.cost} measured={o.alloc} size={c.size}"
+        else if (match c.upper with | some u => !jsonEnvelope c.size u o.alloc | none => false) then
+          s!"DIFF {cls} json-cost measured={o.alloc} node-model={c.upper.getD 0} size={c.size}"
         else s!"OK {cls}"
 
 def costLine (line : String) : String :=
   let (lhs, rhs) := splitArrow (tokens line)
   match parseCase lhs, parseObs rhs with
-  | some c, some o => s!"{c.kind} {c.size} {o.alloc} {c.pred.cost} {c.pred.cls}"
+  | some c, some o => s!"{c.kind} {c.size} {o.alloc} {c.pred.cost} {c.pred.cls} {c.upper.getD 0}"
   | _, _ => "?"
 
 end GeomV.C07
